@@ -1,5 +1,13 @@
-"""Which libc primitive does qvector.c's remove_at() use for the (overlapping) tail shift?
-Regex over the function body; emits lean/QlibcModel/Generated/VectorPrims.lean."""
+"""Facts that are data in src/containers/qvector.c, extracted by regex over the function bodies and
+emitted as lean/QlibcModel/Generated/VectorPrims.lean:
+  * which libc primitive remove_at() uses for the (overlapping) tail shift;
+  * how the constructor resolves the growth-policy bits of the option word (what vector->options
+    starts from, the order of the if / else-if tests, which branch prepares initnum) and, as a
+    separate fact, the order of the tests and the capacity formulas of qvector_addat()'s growth
+    block. The model is assembled from both; that they agree for every option word is a theorem
+    (Props/C10.lean capacity_grows_every_option_word), re-checked whenever the facts change.
+An unrecognised shape raises SystemExit (the check keeps the previous facts and relies on the
+correspondence run)."""
 import os, re, sys
 
 
@@ -25,6 +33,102 @@ def strip_c_comments(text):
     return re.sub(r"//[^\n]*", " ", text)
 
 
+BITS = {"QVECTOR_THREADSAFE": 1, "QVECTOR_RESIZE_DOUBLE": 2, "QVECTOR_RESIZE_LINEAR": 4, "QVECTOR_RESIZE_EXACT": 8}
+FORMULAS = {"(vector->max+1)*2": "double", "vector->max+vector->initnum": "linear", "vector->max+1": "exact"}
+
+
+def block_at(text, i):
+    """text[i] == '{': returns (inside, index after the closing brace)"""
+    depth, j = 0, i
+    while j < len(text):
+        if text[j] == "{":
+            depth += 1
+        elif text[j] == "}":
+            depth -= 1
+            if depth == 0:
+                return text[i + 1:j], j + 1
+        j += 1
+    raise SystemExit("vecprims: unbalanced braces")
+
+
+def if_chain(text, start, subject):
+    """parse `if (<subject> & BIT) {..} else if (<subject> & BIT) {..} ... [else {..}]` beginning at
+    or after `start`; returns ([(bitname, body)], else_body or None)"""
+    head = re.compile(r"if\s*\(\s*" + subject + r"\s*&\s*(QVECTOR_RESIZE_\w+)\s*\)\s*\{")
+    m = head.search(text, start)
+    if not m:
+        raise SystemExit("vecprims: no policy test on %s found" % subject)
+    chain, els = [], None
+    while True:
+        body, end = block_at(text, m.end() - 1)
+        chain.append((m.group(1), body))
+        m2 = re.compile(r"\s*else\s+").match(text, end)
+        if not m2:
+            break
+        m3 = head.match(text, m2.end())
+        if m3:
+            m = m3
+            continue
+        m4 = re.compile(r"\{").match(text, m2.end())
+        if not m4:
+            raise SystemExit("vecprims: unrecognised else branch in the policy chain")
+        els, _ = block_at(text, m4.start())
+        break
+    return chain, els
+
+
+def extract_policy(src):
+    """the constructor's resolution of the policy bits and addat's growth rule, as two separate facts"""
+    # ---- qvector(): what vector->options starts from, the if/else-if chain, where initnum is set
+    ctor = function_body(src, r"qvector_t\s*\*\s*qvector\s*\(\s*size_t\s+max\s*,\s*size_t\s+objsize\s*,\s*int\s+options\s*\)\s*\{")
+    m = re.search(r"vector->options\s*=\s*(\w+)\s*;", ctor)
+    if not m or m.group(1) not in ("0", "options"):
+        raise SystemExit("vecprims: qvector() does not initialise vector->options with 0 or options")
+    raw = m.group(1) == "options"
+    chain, els = if_chain(ctor, m.end(), "options")
+
+    def branch(body):
+        ors = re.findall(r"vector->options\s*\|=\s*(QVECTOR_RESIZE_\w+)\s*;", body)
+        if len(ors) != 1:
+            raise SystemExit("vecprims: a branch of qvector()'s policy chain does not OR in exactly one policy bit")
+        sets_init = "vector->initnum" in body
+        if sets_init:
+            flat = re.sub(r"\s+", "", body)
+            ok = ("if(max==0){vector->initnum=1;}else{vector->initnum=max;}" in flat
+                  or "vector->initnum=(max==0)?1:max;" in flat or "vector->initnum=max==0?1:max;" in flat)
+            if not ok:
+                raise SystemExit("vecprims: unrecognised initnum computation in qvector()")
+        return BITS[ors[0]], sets_init
+    ctor_chain = [(BITS[b],) + branch(body) for b, body in chain]
+    if els is None:
+        raise SystemExit("vecprims: qvector()'s policy chain has no else branch")
+    ctor_else = branch(els)
+    # ---- qvector_addat(): the growth block
+    addat = function_body(src, r"bool\s+qvector_addat\s*\(\s*qvector_t\s*\*\s*vector\s*,\s*int\s+index\s*,\s*const\s+void\s*\*\s*data\s*\)\s*\{")
+    m = re.search(r"if\s*\(\s*vector->num\s*>=\s*vector->max\s*\)\s*\{", addat)
+    if not m:
+        raise SystemExit("vecprims: qvector_addat() has no `if (vector->num >= vector->max)` block")
+    grow, _ = block_at(addat, m.end() - 1)
+    init = re.search(r"size_t\s+newmax\s*(?:=\s*([^;]+))?;", grow)
+    if not init:
+        raise SystemExit("vecprims: growth block does not declare newmax")
+
+    def formula(body):
+        asg = re.findall(r"newmax\s*=\s*([^;]+);", body)
+        if len(asg) != 1 or re.sub(r"\s+", "", asg[0]) not in FORMULAS:
+            raise SystemExit("vecprims: unrecognised capacity formula in the growth block: %r" % asg)
+        return FORMULAS[re.sub(r"\s+", "", asg[0])]
+    gchain, gels = if_chain(grow, init.end(), r"vector->options")
+    grow_chain = [(BITS[b], formula(body)) for b, body in gchain]
+    if gels is not None:
+        grow_default = formula(gels)
+    elif init.group(1) and re.sub(r"\s+", "", init.group(1)) in FORMULAS:
+        grow_default = FORMULAS[re.sub(r"\s+", "", init.group(1))]
+    else:
+        raise SystemExit("vecprims: growth block has neither an else branch nor an initialised newmax")
+    return {"ctorRaw": raw, "ctorChain": ctor_chain, "ctorElse": ctor_else, "growChain": grow_chain, "growDefault": grow_default}
+
+
 def extract(repo):
     src = strip_c_comments(open(os.path.join(repo, "src/containers/qvector.c")).read())
     body = function_body(src, r"static\s+bool\s+remove_at\s*\(\s*qvector_t\s*\*\s*vector\s*,\s*int\s+index\s*\)\s*\{")
@@ -34,17 +138,39 @@ def extract(repo):
     other = [c for c in re.findall(r"\b(\w+)\s*\(", body) if c not in ("memcpy", "memmove", "if", "sizeof")]
     if other:
         raise SystemExit("vecprims: remove_at calls something unexpected: %r" % other)
-    return {"removeAt": calls[0]}
+    facts = {"removeAt": calls[0]}
+    facts.update(extract_policy(src))
+    return facts
+
+
+def lean_bool(b):
+    return "true" if b else "false"
 
 
 def render(facts):
-    return ("/- generated by translator/vecprims.py from src/containers/qvector.c (remove_at) -- do not edit -/\n"
+    ctor = ", ".join("(%d, %d, %s)" % (t, o, lean_bool(i)) for t, o, i in facts["ctorChain"])
+    grow = ", ".join("(%d, .%s)" % (t, k) for t, k in facts["growChain"])
+    return ("/- generated by translator/vecprims.py from src/containers/qvector.c -- do not edit -/\n"
             "import QlibcModel.Seq.CopyPrim\n"
-            "namespace Qlibc.Generated\n\n"
+            "namespace Qlibc.Generated\n"
+            "open Qlibc.Seq\n\n"
             "/-- the primitive `remove_at` calls to shift the tail down by one slot -/\n"
-            "def removeAtPrim : Qlibc.Seq.CopyPrim := .%s\n\n"
-            "end Qlibc.Generated\n" % facts["removeAt"])
+            "def removeAtPrim : CopyPrim := .%s\n\n"
+            "/-- qvector(): `vector->options = options` (true) or `= 0` (false) in front of the policy chain -/\n"
+            "def ctorStoresRaw : Bool := %s\n\n"
+            "/-- qvector(): the `if (options & BIT) … else if …` chain in source order:\n"
+            "    (bit tested, bit ORed into vector->options, branch sets initnum = max == 0 ? 1 : max) -/\n"
+            "def ctorChain : List (Nat × Nat × Bool) := [%s]\n\n"
+            "/-- qvector(): the final `else` of that chain: (bit ORed in, sets initnum) -/\n"
+            "def ctorElse : Nat × Bool := (%d, %s)\n\n"
+            "/-- qvector_addat(): the `if (vector->options & BIT) newmax = …` chain of the growth block in\n"
+            "    source order: (bit tested, capacity formula) -/\n"
+            "def growChain : List (Nat × GrowKind) := [%s]\n\n"
+            "/-- qvector_addat(): the formula when no test of the chain fires -/\n"
+            "def growDefault : GrowKind := .%s\n\n"
+            "end Qlibc.Generated\n" % (facts["removeAt"], lean_bool(facts["ctorRaw"]), ctor,
+                                       facts["ctorElse"][0], lean_bool(facts["ctorElse"][1]), grow, facts["growDefault"]))
 
 
 if __name__ == "__main__":
-    print(render(extract(sys.argv[1] if len(sys.argv) > 1 else "/repo")))
+    print(render(extract(sys.argv[1] if len(sys.argv) > 1 else "/repo")), end="")
